@@ -445,7 +445,7 @@ func getMethodMapName(method core_domain.CodeFunction) string {
 	if name == "" && len(methodQueue) > 1 {
 		name = methodQueue[len(methodQueue)-1].Name
 	}
-	return currentPkg + "." + currentClz + "." + name + ":" + strconv.Itoa(method.Position.StartLine)
+	return currentPkg + "." + currentClz + "." + name + ":" + strconv.Itoa(method.Position.StartLine) + ":" + strconv.Itoa(method.Position.StartLinePosition)
 }
 
 func (s *JavaFullListener) EnterCreator(ctx *parser.CreatorContext) {
